@@ -53,7 +53,8 @@ class World:
         self.db = FaultyDict()
         self.t = self.H(self.db, prune=prune)
         self.prune = prune
-        self.t2 = None
+        # handle 2: a second, non-pruning trie on the same database (starts at the blank root)
+        self.t2 = None if prune else self.H(self.db)
         self.cm = None
         self.batch = None
         self.n = 0                    # position in the behaviour (selects API spelling)
@@ -378,7 +379,7 @@ def replay(obj, mod, rz, opts=frozenset()):
                 if any(now_db.get(k) != v for k, v in begin[0].items()):
                     out.append(("C05", "commit-removed-existing-entry", {}))
                 extra = [k for k in now_db if k not in begin[0] and k not in stored]
-                if extra and not any(e["a"] in ("lose", "supply") for e in h):
+                if extra and not any(e["a"] in ("lose", "supply") or e.get("i") == 2 for e in h):
                     out.append(("C05", "commit-added-intermediate-node", {"extra": extra[:3]}))
     check_state(w, st, out, last)
     if st.get("nlost", 0) == 0 and "stored" in st:
@@ -406,6 +407,54 @@ def replay(obj, mod, rz, opts=frozenset()):
         out.append(("machinery", "spec-size-arithmetic-differs-from-rlp", {"n": rz.size_mismatch[:2]}))
         del rz.size_mismatch[:]
     return out
+
+
+def _walk(j, acc):
+    if not j:
+        return
+    t = j[0]
+    if t == "L":
+        acc.append(("L", j[4]))
+    elif t == "E":
+        acc.append(("E", j[3]))
+        _walk(j[2], acc)
+    elif t == "B":
+        acc.append(("B", j[4]))
+        for c in j[1]:
+            _walk(c, acc)
+
+
+def stats(obj, ctx):
+    """tags describing what the final state of a behaviour exercises (non-vacuity counters)"""
+    st = obj["st"]
+    tags = []
+    acc = []
+    _walk(st.get("root"), acc)
+    szs = [s for _, s in acc[1:]]          # non-root nodes: the embed/hash decision applies
+    for b in (31, 32, 33):
+        if b in szs:
+            tags.append(f"child-node-of-{b}-bytes")
+    if acc and acc[0][1] < 32:
+        tags.append("root-shorter-than-32-bytes")
+    if any(s < 32 for s in szs):
+        tags.append("embedded-child")
+    if any(s >= 32 for s in szs):
+        tags.append("hashed-child")
+    if any(s >= 56 for _, s in acc):
+        tags.append("rlp-long-list-node")
+    if any(c >= 2 for _, c in st.get("rc") or []):
+        tags.append("ref-count>=2")
+    if any(c >= 3 for _, c in st.get("rc") or []):
+        tags.append("ref-count>=3")
+    kinds = {t for t, _ in acc}
+    for t in kinds:
+        tags.append("has-" + {"L": "leaf", "E": "extension", "B": "branch"}[t])
+    h = obj.get("h") or []
+    if h and h[-1].get("out", {}).get("kind") == "missing":
+        tags.append("missing-node-outcome")
+    if st.get("nlost"):
+        tags.append("incomplete-database")
+    return tags
 
 
 def make_context(mod):
